@@ -48,9 +48,9 @@ var props = map[string]propCfg{
 	},
 	"C05": {
 		level: "exploration",
-		rule:  "each run: one generated specification, start state and history of 1-8 unique messages; a simulated host delivers it in tape-chosen consecutive batches with step limits 0-40 and breakpoint predicates, resuming from the returned state with exactly Remaining; then the same history all at once; distinct = distinct (batch size, limit, breakpoint, stop reason) sequences; non-trivial = at least two Walk calls",
-		parts: []part{{name: "", engine: "core", quick: 30000, thorough: 400000}},
-		comps: []string{"real: core.Spec.Compile/Step/Walk, match.Match, interpreters/ecmascript (goja) - instrumented copies with the map-order seam", "reference: /verif/ref machine + mini-matcher (written from the documentation)", "injected: action/guard failures (throw, bad return, unserialisable emit, null, stub interpreter results), map iteration orders"},
+		rule:  "each run: one generated specification, start state and history of 1-8 unique messages; a simulated host delivers it in tape-chosen consecutive batches with step limits 0-40 and breakpoint predicates, resuming from the returned state with exactly Remaining; then the same history all at once; unencodable: plain automata (2-4 message and pass-through nodes, constant patterns, no actions) and histories of 1-8 messages most of which carry a member JSON cannot encode (NaN, infinity, function, channel, nested NaN), delivered in batches with limits 0-40: order and count of consumed messages, the remainder, the step bound, and the end node computed by the harness; distinct = distinct (batch size, limit, breakpoint, stop reason) sequences; non-trivial = at least two Walk calls",
+		parts: []part{{name: "", engine: "core", quick: 30000, thorough: 400000}, {name: "unencodable", engine: "core", quick: 20000, thorough: 300000}},
+		comps: []string{"real: core.Spec.Compile/Step/Walk, match.Match, interpreters/ecmascript (goja) - instrumented copies with the map-order seam", "reference: /verif/ref machine + mini-matcher (written from the documentation); for the part 'unencodable' a finite automaton computed in the harness", "injected: action/guard failures (throw, bad return, unserialisable emit, null, stub interpreter results), map iteration orders, messages that JSON cannot carry (NaN, infinity, function and channel members)"},
 	},
 	"C06": {
 		level: "exploration",
